@@ -935,8 +935,9 @@ class PathCtx:
             return {}
         return model_to_dict(self.model, self.inputs)
 
-    def prove(self, c, label, info=None, timeout_ms=None):
-        """obligation: c holds for every value on this path.  Returns True if discharged."""
+    def prove(self, c, label, info=None, timeout_ms=None, witness=None):
+        """obligation: c holds for every value on this path.  Returns True if discharged.
+        witness: optional stronger violation condition (e.g. a difference well above the tolerance) preferred for the counterexample"""
         self.obligations += 1
         self.reach(label)
         if isinstance(c, (bool, _np.bool_)):
@@ -969,13 +970,22 @@ class PathCtx:
             return True
         if r == z3.sat:
             m = self.solver.model()
+            wit = []
+            if witness is not None and not isinstance(witness, (bool, _np.bool_)):
+                self.solver.set('timeout', int(self.opts.get('lattice_timeout_ms', 3000)))
+                try:
+                    if self._check(bool_term(witness)) == z3.sat:
+                        m = self.solver.model()
+                        wit = [bool_term(witness)]
+                finally:
+                    self.solver.set('timeout', int(self.opts.get('feas_timeout_ms', 20000)))
             # prefer a counterexample on a float-exact lattice (k/64): it survives the rounding of the concrete replay
             if self.opts.get('lattice_models', True):
                 lat = [z3.IsInt(c * 64) for c in self.inputs.values() if z3.is_real(c)]
                 if lat:
                     self.solver.set('timeout', int(self.opts.get('lattice_timeout_ms', 3000)))
                     try:
-                        r3 = self._check(z3.Not(t), *lat)
+                        r3 = self._check(z3.Not(t), *(lat + wit))
                         if r3 == z3.sat:
                             m = self.solver.model()
                     finally:
